@@ -6,6 +6,7 @@ import RtenVerif.Lemmas.SliceT1
 import RtenVerif.Lemmas.AxisSel
 import RtenVerif.Lemmas.WF
 import RtenVerif.Lemmas.Broadcast
+import RtenVerif.Lemmas.Squeeze
 
 /-!
 # C09 — Layout transformations match a reference array model
@@ -746,6 +747,28 @@ theorem c09_broadcast (v : View) (t : List Nat) (s : Nat → α) :
       exact (bc_core v.dims _ _ hdl hall h'.2).2
   · rw [if_neg hc, if_neg hc]; rfl
 
+/-- **C09.T1 squeezed**: `numpy.squeeze(a)` (never fails). -/
+theorem c09_squeeze (v : View) (s : Nat → α) :
+    denote (squeezed v) s = (denote v s).squeeze := by
+  unfold NArr.squeeze
+  have hsh : (denote v s).shape = sizes v.dims := rfl
+  rw [hsh]
+  apply denote_refines v (squeezed v) s (NArr.unsqueeze (sizes v.dims))
+  · exact sizes_filter_one v.dims
+  · intro idx h
+    rw [← sizes_filter_one] at h
+    exact (sq_core v.dims idx h).1
+  · intro idx h
+    rw [← sizes_filter_one] at h
+    show v.base + offset (v.dims.filter (fun p => p.1 != 1)) idx = _
+    rw [(sq_core v.dims idx h).2]
+
+theorem WF_squeezed (v : View) (h : WF v) : WF (squeezed v) := by
+  unfold WF at h ⊢
+  show minDataLen (v.dims.filter (fun p => p.1 != 1)) ≤ v.len
+  rw [minDataLen_filter_one]
+  exact h
+
 /-! ## T2: chains of operations compose -/
 
 /-- The view operations covered by a T1 theorem above. -/
@@ -760,6 +783,7 @@ inductive VOp
   | sa (axis start stop : Nat)
   | split (axis mid : Nat) (right : Bool)
   | bc (target : List Nat)
+  | sq
 
 def VOp.applyL : VOp → View → Except Err View
   | .tr, v => .ok (transposed v)
@@ -772,6 +796,7 @@ def VOp.applyL : VOp → View → Except Err View
   | .sa a b c, v => sliceAxis v a b c
   | .split a m r, v => splitAt v a m r
   | .bc t, v => broadcast v t
+  | .sq, v => .ok (squeezed v)
 
 def VOp.applyR : VOp → NArr α → Except Err (NArr α)
   | .tr, A => .ok A.transpose
@@ -784,6 +809,7 @@ def VOp.applyR : VOp → NArr α → Except Err (NArr α)
   | .sa a b c, A => A.sliceAxis a b c
   | .split a m r, A => A.splitAt a m r
   | .bc t, A => A.broadcastTo t
+  | .sq, A => .ok A.squeeze
 
 /-- Slice ranges are built by `SliceRange::new`, which rejects a zero step. -/
 def VOp.stepsOk : VOp → Prop
@@ -812,6 +838,12 @@ theorem c09_step (op : VOp) (v : View) (s : Nat → α) (hwf : WF v) (hs : op.st
   | sa a b c => exact c09_slice_axis v a b c s hwf
   | split a m r => exact c09_split_at v a m r s hwf
   | bc t => exact ⟨c09_broadcast v t s, fun v' h => WF_broadcast v v' t h hwf⟩
+  | sq =>
+    refine ⟨by simp only [VOp.applyL, VOp.applyR, Except.map, c09_squeeze], ?_⟩
+    intro v' h
+    simp only [VOp.applyL] at h
+    injection h with h
+    exact h ▸ WF_squeezed v hwf
 
 def chainL : List VOp → View → Except Err View
   | [], v => .ok v
